@@ -16,7 +16,7 @@ import (
 func init() { register("C11", checkC11) }
 
 func checkC11(w *World, r *Report) {
-	r.Explanation = "Decides the structural part of 'probe, then commit, and terminate': (R11.1) in Handshake every commit step is dominated by its probe (upstream codec, downstream codec, fragment size which also receives the probe's result, version handshake after query-type detection when none is preset) and Handshake reports success only on the err == nil edges of the version handshake, the fragment-size probe and the fragment-size switch; (R11.2) every auto-detection candidate is in the codec registry and every upstream candidate has at least one test pattern (an empty list passes the probe vacuously); (R11.3) the fragment-probe generator on the server and the checker on the client use equal constants and both ends compare against the single DownloadCodecCheck pattern; (R11.4) every loop in Handshake's synchronous call cone whose exit depends on loop-carried variables changes one of them on every cyclic path (no no-progress path: the handshake cannot repeat the same probe forever); (R11.5) every codec assigned to the upstream direction without having passed the probe (case-swap and error fall-backs) has an alphabet that stays injective under ASCII case folding. Not decided: 'probe passed => data transfer works on that path', lost replies to a commit."
+	r.Explanation = "Decides the structural part of 'probe, then commit, and terminate': (R11.1) in Handshake every commit step is dominated by its probe (upstream codec, downstream codec, fragment size which also receives the probe's result, version handshake after query-type detection when none is preset) and Handshake reports success only on the err == nil edges of the version handshake, the fragment-size probe and the fragment-size switch; (R11.2) every auto-detection candidate is in the codec registry and every upstream candidate has at least one test pattern (an empty list passes the probe vacuously); (R11.3) the fragment-probe generator on the server and the checker on the client use equal constants and both ends compare against the single DownloadCodecCheck pattern; (R11.4) every loop in Handshake's synchronous call cone whose exit depends on loop-carried variables changes one of them on every cyclic path (no no-progress path: the handshake cannot repeat the same probe forever); (R11.5) every codec assigned to the upstream direction without having passed the probe (case-swap and error fall-backs) has an alphabet that stays injective under ASCII case folding. (R11.7) on every successful path of Handshake the last step that can change the upstream codec is followed by a store of the freshly computed upstream fragment size (the size is a function of the codec's ratio: a stale one overruns the 253-octet name with the sparser fall-back codec). Not decided: 'probe passed => data transfer works on that path', lost replies to a commit."
 	r.NotDecided = []string{"probe passed => arbitrary data carried correctly over the same path", "behaviour under 8-bit mangling / size limits", "lost replies to a commit (client falls back while the server switched)"}
 	r.Trusted = []string{"DNS paths may fold ASCII case only"}
 	r.Rule("R11.1", "probe before commit; success only after the mandatory steps succeeded", 5)
@@ -24,6 +24,7 @@ func checkC11(w *World, r *Report) {
 	r.Rule("R11.3", "probe patterns agree on both ends", 2)
 	r.Rule("R11.4", "handshake loops make progress", 8)
 	r.Rule("R11.5", "fall-back codecs survive case folding", 3)
+	r.Rule("R11.7", "the upstream fragment size is recomputed after the last change of the upstream codec", 1)
 	r.Rule("R11.6", "the committed query type passed its probe", 1)
 
 	cdc := w.Named("internal/streams/dns", "ClientDnsConnection")
@@ -410,6 +411,7 @@ func checkC11(w *World, r *Report) {
 
 	// ---------------------------------------------------------------- R11.3
 	c11Patterns(w, r)
+	c11DerivedMtu(w, r)
 
 	// ---------------------------------------------------------------- R11.4
 	seen := map[*ssa.Function]bool{}
@@ -566,4 +568,113 @@ func c11Patterns(w *World, r *Report) {
 	sort.Strings(list)
 	r.Check(server && client, "R11.3", "pattern:util.DownloadCodecCheck", w.Pos(dcc.Pos()), fmt.Sprintf("the one pattern object is what the server sends and what the client compares with (%d user(s))", len(list)),
 		"server and client no longer share the single DownloadCodecCheck pattern", "users", list)
+}
+
+// c11DerivedMtu: R11.7 — Upstream.FragmentSize is derived from the upstream codec (its ratio). Any step of
+// Handshake that may store Upstream.Encoder (detection, the switch with its silent fall-back) must be
+// followed, on every path to a successful return, by a store of a freshly computed size.
+func c11DerivedMtu(w *World, r *Report) {
+	cdc := w.Named("internal/streams/dns", "ClientDnsConnection")
+	key := "method:(*streams/dns.ClientDnsConnection).Handshake|upstream-mtu-after-codec"
+	hs := w.SSAFunc(methodOf(cdc, "Handshake"))
+	upCfg := w.Named("internal/streams/dns/util", "UpstreamConfig")
+	encF, fragF := fieldOf(upCfg, "Encoder"), fieldOf(upCfg, "FragmentSize")
+	if hs == nil || encF == nil || fragF == nil {
+		r.Undecided("R11.7", key, "-", "anchor unresolved: Handshake / UpstreamConfig.Encoder / FragmentSize")
+		return
+	}
+	// functions whose synchronous cone stores Upstream.Encoder
+	storesEnc := map[*ssa.Function]bool{}
+	var writes func(f *ssa.Function, seen map[*ssa.Function]bool, d int) bool
+	writes = func(f *ssa.Function, seen map[*ssa.Function]bool, d int) bool {
+		if f == nil || seen[f] || d > 5 || !inModule(f) {
+			return false
+		}
+		seen[f] = true
+		found := false
+		allInstrs(f, func(in ssa.Instruction) {
+			if st, ok := in.(*ssa.Store); ok {
+				if fa := asFieldAddr(st.Addr); fa != nil && fieldVarOf(fa) == encF {
+					found = true
+				}
+			}
+		})
+		if found {
+			return true
+		}
+		for _, c := range callsIn(f) {
+			if _, isGo := c.(*ssa.Go); isGo {
+				continue
+			}
+			if sc := c.Common().StaticCallee(); sc != nil && writes(sc, seen, d+1) {
+				return true
+			}
+		}
+		return false
+	}
+	isEncStep := func(in ssa.Instruction) bool {
+		if st, ok := in.(*ssa.Store); ok {
+			if fa := asFieldAddr(st.Addr); fa != nil && fieldVarOf(fa) == encF {
+				return true
+			}
+		}
+		c, ok := in.(*ssa.Call)
+		if !ok {
+			return false
+		}
+		sc := c.Call.StaticCallee()
+		if sc == nil {
+			return false
+		}
+		if v, ok := storesEnc[sc]; ok {
+			return v
+		}
+		v := writes(sc, map[*ssa.Function]bool{}, 0)
+		storesEnc[sc] = v
+		return v
+	}
+	isMtuStore := func(in ssa.Instruction) bool {
+		st, ok := in.(*ssa.Store)
+		if !ok {
+			return false
+		}
+		fa := asFieldAddr(st.Addr)
+		if fa == nil || fieldVarOf(fa) != fragF {
+			return false
+		}
+		// fed by a call (the size computation), not a constant or a stale copy
+		for _, root := range provenance(st.Val, provOpts{}) {
+			if c, ok := root.(*ssa.Call); ok && c.Call.StaticCallee() != nil && inModule(c.Call.StaticCallee()) {
+				return true
+			}
+		}
+		return false
+	}
+	bad := ""
+	nsucc := 0
+	okp := enumPaths(hs, nil, func(in ssa.Instruction) bool { return isEncStep(in) || isMtuStore(in) }, nil, func(e pathExit) {
+		ret, isRet := e.Last.(*ssa.Return)
+		if !isRet || len(ret.Results) == 0 || !isConstNil(e.State.Resolve(ret.Results[len(ret.Results)-1])) {
+			return
+		}
+		nsucc++
+		lastEnc, lastMtu := -1, -1
+		var encAt ssa.Instruction
+		for i, ev := range e.State.Events {
+			if isMtuStore(ev) {
+				lastMtu = i
+			} else {
+				lastEnc = i
+				encAt = ev
+			}
+		}
+		if lastEnc >= 0 && lastMtu < lastEnc && bad == "" {
+			bad = fmt.Sprintf("%s: this step can change the upstream codec and no freshly computed upstream fragment size is stored afterwards on a successful path: after a fall-back to a sparser codec the stale (larger) size makes full fragments exceed the DNS name limit although the handshake reported success", w.Pos(encAt.Pos()))
+		}
+	})
+	if !okp {
+		r.Undecided("R11.7", key, w.Pos(hs.Pos()), "path budget exceeded")
+		return
+	}
+	r.Check(bad == "" && nsucc > 0, "R11.7", key, w.Pos(hs.Pos()), fmt.Sprintf("%d successful path(s): the upstream fragment size is recomputed after the last codec-changing step", nsucc), bad)
 }
